@@ -51,7 +51,7 @@ type HTTPSpec struct {
 	PendCount int
 	// KeyForm: how the keygen reply spells the key: "" = text, "cdata".
 	KeyForm string
-	ToolPid   func() int
+	ToolPid func() int
 }
 
 type HTTPMember struct {
